@@ -446,6 +446,14 @@ fn js_field(field: &str) -> String {
     format!("_json->'$.{}'", field)
 }
 
+///
+/// the SQL value of a member (->>): aggregates must see numbers as numbers and a JSON null as NULL.
+/// With -> they get the JSON text: max(9,10,100) is 9 and avg() counts every null as 0
+///
+fn js_value(field: &str) -> String {
+    format!("_json->>'$.{}'", field)
+}
+
 fn get_fields(
     entity: &EntityQuery,
     prepared_query: &mut SingleQuery,
@@ -608,7 +616,7 @@ fn get_fields(
                         let agg_field = if field.field.is_system {
                             field.field.name.clone()
                         } else {
-                            js_field(f)
+                            js_value(f)
                         };
                         format!("'{}', avg({}) ", &field.name(), agg_field)
                     }
@@ -617,7 +625,7 @@ fn get_fields(
                         let agg_field = if field.field.is_system {
                             field.field.name.clone()
                         } else {
-                            js_field(f)
+                            js_value(f)
                         };
                         format!("'{}', max({}) ", &field.name(), agg_field)
                     }
@@ -625,7 +633,7 @@ fn get_fields(
                         let agg_field = if field.field.is_system {
                             field.field.name.clone()
                         } else {
-                            js_field(f)
+                            js_value(f)
                         };
                         format!("'{}', min({}) ", &field.name(), agg_field)
                     }
@@ -633,7 +641,7 @@ fn get_fields(
                         let agg_field = if field.field.is_system {
                             field.field.name.clone()
                         } else {
-                            js_field(f)
+                            js_value(f)
                         };
                         format!("'{}', total({}) ", &field.name(), agg_field)
                     }
